@@ -32,8 +32,7 @@ func (x *Exec) defineAlways(st *State, t *Term, hint string) *Term {
 	if t.K == TConst || t.K == TNum {
 		return t
 	}
-	cst := Const(freshName("v:"+hint), t.Sort)
-	defConsts.Store(cst.Op, true)
+	cst := Const(freshName("d:"+hint), t.Sort)
 	st.PC = append(st.PC, Eq(cst, t))
 	return cst
 }
